@@ -8,7 +8,6 @@ class Prop:
     engine = "TH (controlled threads: baton passing, line-level pre-emption points, simulated locks)"
     quick_runs = 30000
     thorough_runs = 400000
-    quick_budget = 70.0
     chunk = 100
     kinds = "refcount".split(",")
     time_unit = "simulated microseconds (no timers in this workload)"
